@@ -423,7 +423,11 @@ func RenderProg(t *Tables, p *Prog) string {
 			d := &p.Decls[i]
 			switch {
 			case op == "NewGlobal" && d.Op == "NewGlobal":
-				fmt.Fprintf(&sb, "%s = external global %s\n", gname(d.Name, &anon), d.Ty.String())
+				as := ""
+				if d.AS != 0 {
+					as = fmt.Sprintf("addrspace(%d) ", d.AS)
+				}
+				fmt.Fprintf(&sb, "%s = external %sglobal %s\n", gname(d.Name, &anon), as, d.Ty.String())
 			case op == "NewGlobal" && d.Op == "NewGlobalDef":
 				fmt.Fprintf(&sb, "%s = global %s %s\n", gname(d.Name, &anon), d.Ty.String(), ConstText(t, d.Init, blockName))
 			case op == "NewAlias" && d.Op == "NewAlias":
